@@ -224,19 +224,19 @@ type c12L2Sys struct {
 	deny   atomic.Int64
 }
 
-var c12L2Signers = []string{"authority", "admin", "admin2", "e1", "e2", "stranger"}
+var c12L2Signers = []string{"authority", "admin", "admin2", "e1", "e2", "e3", "stranger"}
 
 type c12SetAdmin struct{ to string }
 type c12SetExecs struct{ to []string }
 type c12SetInfo struct{ client string }
-type c12Plan struct{}
+type c12Plan struct{ execs []string }
 
 func (y *c12L2Sys) Root() *c12L2State {
 	w := world.NewL2(world.L2Options{
 		// the admins hold funds, so that a foreign-signed inner message (a bank send out of the admin's
 		// account) would really succeed if the signer rule let it through
 		Accounts: map[string]sdk.Coins{"admin": sdk.NewCoins(sdk.NewInt64Coin("umin", 10)), "admin2": sdk.NewCoins(sdk.NewInt64Coin("umin", 10)),
-			"e1": nil, "e2": nil, "stranger": nil, "o1": nil, "o2": nil, "o3": nil, "alice": nil},
+			"e1": nil, "e2": nil, "e3": nil, "stranger": nil, "o1": nil, "o2": nil, "o3": nil, "alice": nil},
 		Executors:  []string{"e1"},
 		Validators: [][2]string{{"o1", "k1"}},
 		Params:     func(p *opchildtypes.Params) { p.MaxValidators = 5 },
@@ -292,7 +292,10 @@ func (y *c12L2Sys) Letters(s *c12L2State) []engine.Letter {
 		{Name: "SetBridgeInfo(client=07-tendermint-0)", Data: c12SetInfo{"07-tendermint-0"}},
 	}
 	if !s.planned {
-		ls = append(ls, engine.Letter{Name: "ExecutorChangePlanBlock(execs=[e2])", Data: c12Plan{}})
+		// the plan's list is shorter, longer or as long as the current one, and ends differently
+		ls = append(ls, engine.Letter{Name: "ExecutorChangePlanBlock(execs=[e2])", Data: c12Plan{[]string{"e2"}}})
+		ls = append(ls, engine.Letter{Name: "ExecutorChangePlanBlock(execs=[e3])", Data: c12Plan{[]string{"e3"}}})
+		ls = append(ls, engine.Letter{Name: "ExecutorChangePlanBlock(execs=[e2,e3])", Data: c12Plan{[]string{"e2", "e3"}}})
 	}
 	return ls
 }
@@ -358,14 +361,18 @@ func (y *c12L2Sys) Step(s *c12L2State, l engine.Letter) (*c12L2State, string, *e
 	case c12Plan:
 		s.w.K.ExecutorChangePlans = map[uint64]opchildtypes.ExecutorChangePlan{}
 		defer func() { s.w.K.ExecutorChangePlans = map[uint64]opchildtypes.ExecutorChangePlan{} }()
-		if err := s.w.K.RegisterExecutorChangePlan(1, uint64(ctx.BlockHeight()), valOf("o2"), "m", pubKeyJSON(s.w, "k2"), "i", []string{s.addr("e2")}); err != nil {
+		var planExecs []string
+		for _, e := range d.execs {
+			planExecs = append(planExecs, s.addr(e))
+		}
+		if err := s.w.K.RegisterExecutorChangePlan(1, uint64(ctx.BlockHeight()), valOf("o2"), "m", pubKeyJSON(s.w, "k2"), "i", planExecs); err != nil {
 			return c, "rejected", viol("harness-expectation", "plan registration failed: %v", err)
 		}
 		if _, err := opchild.EndBlocker(ctx, s.w.K); err != nil {
 			return c, "rejected", viol("harness-expectation", "EndBlocker failed: %v", err)
 		}
 		c.ctx = ctx.WithBlockHeight(ctx.BlockHeight() + 1)
-		c.execs = []string{"e2"}
+		c.execs = append([]string{}, d.execs...)
 		c.planned = true
 		return c, "executed", nil
 	}
